@@ -446,11 +446,11 @@ int SimulateRiscv::alu_reg(uint32_t opcode)
       switch (funct3)
       {
         case 0: reg[rd] = reg[rs1] + reg[rs2]; break;
-        case 1: reg[rd] = reg[rs1] << reg[rs2]; break;
+        case 1: reg[rd] = reg[rs1] << (reg[rs2] & 0x1f); break;
         case 2: reg[rd] = reg[rs1] < reg[rs2] ? 1 : 0; break;
-        case 3: reg[rd] = reg[rs1] << reg[rs2]; break;
+        case 3: reg[rd] = reg[rs1] << (reg[rs2] & 0x1f); break;
         case 4: reg[rd] = reg[rs1] ^ reg[rs2]; break;
-        case 5: reg[rd] = (uint32_t)reg[rs1] << (uint32_t)reg[rs2]; break;
+        case 5: reg[rd] = (uint32_t)reg[rs1] << (reg[rs2] & 0x1f); break;
         case 6: reg[rd] = reg[rs1] | reg[rs2]; break;
         case 7: reg[rd] = reg[rs1] & reg[rs2]; break;
       }
@@ -459,7 +459,7 @@ int SimulateRiscv::alu_reg(uint32_t opcode)
       {
         case 0: reg[rd] = reg[rs1] - reg[rs2]; break;
         case 2: reg[rd] = (uint32_t)reg[rs1] < (uint32_t)reg[rs2] ? 1 : 0; break;
-        case 5: reg[rd] = reg[rs1] >> reg[rs2]; break;
+        case 5: reg[rd] = reg[rs1] >> (reg[rs2] & 0x1f); break;
       }
   }
 
